@@ -7,6 +7,10 @@ props = [json.loads(l) for l in open(os.path.join(V, 'properties.jsonl'))]
 TRUST = "Trusted: go/types and go/ssa (x/tools v0.29.0) as a faithful view of /repo's working tree; anchor names (functions, fields) listed in the rule files; std library contracts; reviewed tables rules/exceptions.json. Loops are abstracted to 0/1 iterations in decision-list rules."
 
 CLAIMS = {
+ "C07": dict(
+   technique="path enumeration of the converter visitor with emission events (balanced start/end placeholders), CanBeNested table extraction, loop transition-function extraction of the retainer, clone-as-unit and append-only rules",
+   text="Decides the structural necessary conditions of nesting preservation: start and end placeholders are emitted under the same predicate application with the node's own tag name; a nestable element that got its start tag is always walked so its end tag follows; tags are never renamed across the nestable boundary; the retainer's per-element transition (boolean part) is the documented one; data tables are stored, cloned and serialised as one unit from an append-only node list; text rooted at a nestable element emits inner HTML. Not decided: the retainer's integer stack-mark logic and HTML re-parsing.",
+   design="4/C07"),
  "C08": dict(
    technique="loop transition-function extraction (one iteration of RelevantElements.Process as a decision list over boolean loop state) + call ordering (must-pass-through) + layering (who-may-call) + loop/promotion rules",
    text="Decides that the retention automaton for non-text elements is exactly: content element opens a run, dropped text closes it, any other element is retained iff the run is open; that the filters run in the fixed order after text classification; that the lead-image promotion is a single SetIsContent(true) outside loops over candidates that are dropped images/figures before the last retained text; and that nobody else writes the content flag. This is the structural form of 'retained iff the nearest preceding text block is retained, plus at most one lead image'. Not decided: scorer arithmetic and the classifier's choice of text blocks.",
